@@ -9,6 +9,9 @@ here = os.path.dirname(os.path.dirname(os.path.abspath(__file__)))
 rows = []
 for d in sorted(glob.glob(os.path.join(here, "seeded", "M*"))):
     meta = json.load(open(os.path.join(d, "meta.json")))
+    if str(meta.get("status", "")).startswith("rejected"):
+        print(meta["id"], "skipped (%s)" % meta["status"])
+        continue
     p = subprocess.run([os.path.join(here, "tools", "eval_mutant.py"), d], stdout=subprocess.PIPE, stderr=subprocess.STDOUT)
     out = p.stdout.decode(errors="replace")
     line = [l for l in out.splitlines() if l.startswith("RESULT ")]
